@@ -54,7 +54,7 @@ def printed_values(out):
     return vals
 
 
-def run(ctx):
+def _run(ctx):
     core.import_tdgl()
     # ---------------------------------------------------------------- 1. the model
     r = ctx.model_check("FieldKernels", cfg(ctx.quick, INVS + ["EmitInst"]), name="FieldKernels[Pythagorean instances, H<->B units]",
@@ -166,3 +166,21 @@ def run(ctx):
     ctx.assume("the closed-form loop potential vs numerical quadrature comparison is not decided by the specification (no finite exact instance); "
                "only linearity in the current, the scaling law and the symmetries of current_loop_vector_potential are checked")
     ctx.assume("reference sums in harness/fields.py are themselves validated against TLC's exact values on the same instances")
+
+
+def run(ctx):
+    """A problem of the harness on a tree that has already been refuted must not turn the verdict into a machinery failure:
+    violations recorded so far stand (exit 1); without any violation the problem is reported as what it is (exit 2)."""
+    import traceback
+
+    from harness import core as _core
+    try:
+        _run(ctx)
+    except _core.MachineryFailure as e:
+        if not ctx.violations:
+            raise
+        ctx.cov["machinery_problem_after_violations"] = str(e)[:500]
+    except Exception:
+        if not ctx.violations:
+            raise
+        ctx.cov["machinery_problem_after_violations"] = traceback.format_exc()[-800:]
